@@ -1117,6 +1117,9 @@ func stackOf() string {
 
 // lagPred holds a gate closed until an instant on the fake clock (and then
 // defers to the inner predicate, if any).
+// After is a gate predicate that holds once the fake clock has reached t.
+func After(t time.Time) core.Pred { return &lagPred{until: t} }
+
 type lagPred struct {
 	inner core.Pred
 	until time.Time
